@@ -60,7 +60,7 @@ template<class A> struct Sess {
     if(op=="norm"){ int s=S("s"); unsigned m=(unsigned)a["m"].n; Slot&sl=slots[s]; std::string pre=proj(s); int rc=-9;
       int sig=call([&]{ rc= usemm? A::NormalizeSyntaxExMm(&sl.uri,m,&mm.mm) : (m==63&&(obs&1)? A::NormalizeSyntax(&sl.uri) : A::NormalizeSyntaxEx(&sl.uri,m)); });
       J j; j.str("e","SNormalize").num("w",A::W).num("s",s).num("m",m).raw("pre",pre).num("rc",rc).num("fault",sig);
-      if(!sig&&rc==URI_SUCCESS){ if(m%64){ if(sl.owner) invalidate(sdep(s)); sl.owner=true; sl.deps.clear(); sl.valid=true; } j.raw("out",proj(s)); } else dead=true;
+      if(!sig&&rc==URI_SUCCESS){ if(m){ if(sl.owner) invalidate(sdep(s)); sl.owner=true; sl.deps.clear(); sl.valid=true; } j.raw("out",proj(s)); } else dead=true;
       g.event_to(shard,j.done()); observe_all(); return; }
     if(op=="add"||op=="rem"){ bool add=op=="add"; int d=S("d"), r=S(add?"r":"s"), b=S("b"); int o= add? (a["o"].b?1:0) : (a["md"].b?1:0); Slot&sd=slots[d]; std::string prer=proj(r), preb=proj(b); int rc=-9; memset(&sd.uri,0x5A,sizeof sd.uri);
       int sig=call([&]{ if(add) rc= usemm? A::AddBaseUriExMm(&sd.uri,&slots[r].uri,&slots[b].uri,(UriResolutionOptions)o,&mm.mm) : A::AddBaseUriEx(&sd.uri,&slots[r].uri,&slots[b].uri,(UriResolutionOptions)o);
@@ -95,14 +95,14 @@ static Text random_uri(Rng&R){
 
 template<class A> static void random_episode(Rng&R,int steps,size_t shard,const std::vector<Text>&pool){
   const int NS=5, NB=3; Sess<A> S(NS,NB,R.below(3)==0); S.shard=shard; g.event_to(shard,J().str("e","Reset").num("ns",NS).num("nb",NB).done());
-  std::string desc; static const unsigned masks[]={63,63,8,8,0,1,2,4,16,32,12,55,0x48,0xFFFFFFFFu};
+  std::string desc; static const unsigned masks[]={63,63,8,8,0,1,2,4,16,32,12,55,0x48,0xFFFFFFFFu,0x40,0x80};
   for(int k=0;k<steps&&!S.dead;++k){ JV a; bool found=false;
     for(int attempt=0;attempt<6&&!found;++attempt){ int c=R.below(100);
       for(int tries=0;tries<12&&!found;++tries){
         if(c<10) a=with_text(act("buf",{{"i",1+R.below(NB)}}), R.below(4)? random_uri(R) : R.pick(pool));
         else if(c<26) a=act("parse",{{"s",1+R.below(NS)},{"i",1+R.below(NB)}});
         else if(c<36) a=act("own",{{"s",1+R.below(NS)}});
-        else if(c<52) a=act("norm",{{"s",1+R.below(NS)},{"m",(long long)masks[R.below(14)]}});
+        else if(c<52) a=act("norm",{{"s",1+R.below(NS)},{"m",(long long)masks[R.below(16)]}});
         else if(c<70) a=with_bool(act("add",{{"d",1+R.below(NS)},{"r",1+R.below(NS)},{"b",1+R.below(NS)}}),"o",R.below(4)==0);
         else if(c<84) a=with_bool(act("rem",{{"d",1+R.below(NS)},{"s",1+R.below(NS)},{"b",1+R.below(NS)}}),"md",R.below(3)==0);
         else if(c<91) a=act("free",{{"s",1+R.below(NS)}});
